@@ -31,7 +31,7 @@ DTYPES = ["float16", "float32", "float64", "int8", "int16", "int32", "int64", "u
           "uint32", "uint64", "bool", "complex64", "complex128"]
 LAYOUTS = ["C", "F", "rev", "step", "T", "bcast"]
 VALS = ["nan", "zeros", "subnormal", "inf", "extreme", "ones", "random"]
-TARGETS = ["str", "path", "bytesio", "tempfile"]
+TARGETS = ["str", "path", "bytesio", "tempfile", "bytesio_used", "tempfile_used"]
 SHAPES = [[], [1], [3], [0], [0, 3], [2, 3], [2, 1, 3], [1, 2, 2, 2], [2, 1, 1, 2, 2], [4, 1]]
 FIELDS = [("Affine", "weight"), ("Affine", "bias"), ("Linear", "weight"), ("Scale", "scale"), ("Delay", "delay"),
           ("Threshold", "threshold"), ("I", "r"), ("IF", "v_threshold"), ("LI", "tau"), ("LIF", "v_leak"),
@@ -243,6 +243,16 @@ def run(c):
             tgt = p if c["target"] == "str" else pathlib.Path(p)
         elif c["target"] == "bytesio":
             tgt = fobj = io.BytesIO()
+        elif c["target"] == "bytesio_used":
+            # a buffer that was used before and emptied: it is empty, but its position is not 0
+            tgt = fobj = io.BytesIO()
+            fobj.write(b"scratch " * 9)
+            fobj.truncate(0)
+        elif c["target"] == "tempfile_used":
+            tgt = fobj = tempfile.TemporaryFile()
+            fobj.write(b"scratch " * 9)
+            fobj.flush()
+            fobj.truncate(0)
         else:
             tgt = fobj = tempfile.TemporaryFile()
         try:
@@ -259,7 +269,7 @@ def run(c):
     finally:
         if tmpdir:
             shutil.rmtree(tmpdir, ignore_errors=True)
-        if fobj is not None and c["target"] == "tempfile":
+        if fobj is not None and c["target"].startswith("tempfile"):
             fobj.close()
     after = [(np.asarray(x).dtype.str, np.asarray(x).shape, np.ascontiguousarray(np.asarray(x)).tobytes()) for x in get_field(g2, c)]
     fail = None
@@ -270,6 +280,22 @@ def run(c):
                     f"{c['target']}): {what} changed: wrote {b[0]} {b[1]} {b[2][:16].hex()}, read {a[0]} {a[1]} {a[2][:16].hex()}")
             break
     coq_term = cops(r, ["file"], ("ok", g2))      # before the in-place update below: the recipe shares the arrays
+    if not fail:
+        # second generation: the graph that was read is written and read again (rank-0 tensors travel as numpy scalars)
+        try:
+            with quiet():
+                bio2 = io.BytesIO()
+                nir.write(bio2, g2)
+                g4 = nir.read(bio2)
+            after4 = [(np.asarray(x).dtype.str, np.asarray(x).shape, np.ascontiguousarray(np.asarray(x)).tobytes()) for x in get_field(g4, c)]
+            for b, a in zip(before, after4):
+                if b != a:
+                    what = "dtype" if b[0] != a[0] else "shape" if b[1] != a[1] else "bytes"
+                    fail = (f"{c['cls']}.{c['field']} ({c['dt']}, shape {c['shape']}, {c['val']} values): {what} changed in the SECOND generation "
+                            f"(write, read, write the graph that was read, read): wrote {b[0]} {b[1]} {b[2][:16].hex()}, read {a[0]} {a[1]} {a[2][:16].hex()}")
+                    break
+        except BaseException as e:  # noqa: BLE001
+            fail = f"writing / reading the graph returned by nir.read raised {type(e).__name__}: {e} for {c}"
     if not fail and c["cls"] not in ("Input",):
         # the SAME node objects written again after their tensors were overwritten in place: the second file must hold the
         # current content, not what an earlier serialisation saw
